@@ -98,12 +98,13 @@ class ConfigHarness(Harness):
             root, img, tmp = os.path.join(td, "root"), os.path.join(td, "img"), os.path.join(td, "tmp")
             os.makedirs(tmp)
             lines = []
-            if PROTECT[c["protect"]]:
-                lines.append(f'CONFIG_PROTECT="{PROTECT[c["protect"]]}"')
-            if MASK[c["mask"]]:
-                lines.append(f'CONFIG_PROTECT_MASK="{MASK[c["mask"]]}"')
+            # a non-incremental variable first, several paths per incremental one
             if IGNORE[c["ignore"]]:
                 lines.append(f'COLLISION_IGNORE="{IGNORE[c["ignore"]]}"')
+            if PROTECT[c["protect"]]:
+                lines.append(f'CONFIG_PROTECT="/opt/unused {PROTECT[c["protect"]]}"')
+            if MASK[c["mask"]]:
+                lines.append(f'CONFIG_PROTECT_MASK="{MASK[c["mask"]]} /opt/unused/masked"')
             mkfile(os.path.join(root, "etc/env.d/50test"), "".join(l + "\n" for l in lines))
             live, incoming = {}, {}
             for rel, tag in FILES.items():
